@@ -44,6 +44,7 @@ fn main() {
     let code = match args[1].as_str() {
         "walk" => walk::main(rest),
         "replay-positions" => replay::positions(rest),
+        "replay-game" => replay::game(rest),
         other => {
             eprintln!("unknown subcommand {other}");
             2
